@@ -1,1 +1,298 @@
-//! Receive-path packet corpus (filled in below by the receive-side monitors).
+//! Receive-path packet corpus: valid packets (library-encoded and forged), field sweeps,
+//! truncations, corruptions, random byte strings with plausible headers, padded packets.
+
+use crate::catalog::*;
+use crate::refmodel::crc::crc8;
+use crate::refmodel::forge::*;
+use crate::refmodel::wire::*;
+use crate::rng::Rng;
+
+/// Data for a forged control message with a plausible length for its command.
+fn ctrl_data(rng: &mut Rng, rq: bool, cmd: u8, right_len: bool) -> Vec<u8> {
+    let fixed = if rq { req_fixed_len(cmd) } else { resp_fixed_len(cmd) };
+    let n = if right_len {
+        match fixed {
+            Some(l) => l,
+            None => match (rq, cmd) {
+                (false, 0x02) => *rng.pick(&[3usize, 4]),
+                (false, 0x05) => 1 + rng.below(8) as usize,
+                (false, 0x06) => *rng.pick(&[4usize, 6, 8]),
+                (true, 0x09) => 1 + 4 * rng.below(4) as usize,
+                (true, 0x0A) => 1,
+                (true, 0x0F) => 2,
+                (true, 0x10) => 17,
+                _ => {
+                    if rng.chance(3, 4) {
+                        0
+                    } else {
+                        rng.below(20) as usize
+                    }
+                }
+            },
+        }
+    } else {
+        match rng.below(8) {
+            0 => rng.below(248) as usize,
+            _ => rng.below(24) as usize,
+        }
+    };
+    let mut d = rng.bytes(n);
+    if rq && cmd == 0x01 && !d.is_empty() {
+        // Set Endpoint ID: operation mostly Set/Force, sometimes Reset/Discovered, rarely out of range
+        d[0] = match rng.below(16) {
+            0 => 2,
+            1 | 2 => 3,
+            3 => rng.byte(),
+            _ => rng.below(2) as u8,
+        };
+        if d.len() > 1 && rng.chance(7, 8) {
+            d[1] = rng.range(1, 0xFE) as u8;
+        }
+    }
+    if rq && cmd == 0x06 && !d.is_empty() && rng.chance(7, 8) {
+        d[0] = rng.below(3) as u8;
+    }
+    d
+}
+
+pub fn random_cmd(rng: &mut Rng) -> u8 {
+    match rng.below(20) {
+        0..=11 => rng.range(1, 8) as u8,
+        12 => 0,
+        13..=16 => rng.range(9, 0x14) as u8,
+        _ => rng.byte(),
+    }
+}
+
+/// A forged control message (request or response) as another implementation might send it.
+pub fn forged_ctrl(rng: &mut Rng) -> Vec<u8> {
+    let rq = rng.chance(3, 5);
+    let cmd = random_cmd(rng);
+    let right_len = rng.chance(3, 4);
+    let data = ctrl_data(rng, rq, cmd, right_len);
+    let dst = rng.byte() & 0x7F;
+    let src = rng.byte() & 0x7F;
+    let iid = rng.byte() & 0x1F;
+    let mut p = if rq {
+        ctrl_request(dst, src, iid, rng.chance(1, 10), cmd, &data)
+    } else {
+        let cc = match rng.below(20) {
+            0..=11 => 0,
+            12..=16 => rng.range(1, 5) as u8,
+            _ => rng.byte(),
+        };
+        ctrl_response(dst, src, iid, cmd, cc, &data)
+    };
+    if rng.chance(1, 20) {
+        p[9] |= 0x20; // reserved bit of the control header
+        fix_pec(&mut p);
+    }
+    p
+}
+
+/// A forged vendor-defined / SPDM / secured message.
+pub fn forged_vendor(rng: &mut Rng) -> Vec<u8> {
+    let ty = *rng.pick(&[TY_PCI, TY_IANA, TY_SPDM, TY_SECURED]);
+    let n = match rng.below(8) {
+        0 => 0,
+        1 => rng.below(250) as usize,
+        2 => 249 - rng.below(3) as usize,
+        _ => rng.below(32) as usize,
+    };
+    let body = rng.bytes(n);
+    let dst = rng.byte() & 0x7F;
+    let src = rng.byte() & 0x7F;
+    frame(dst, src, rng.byte(), rng.byte(), if rng.chance(3, 4) { FLAGS_REQ } else { rng.byte() }, ty, &body)
+}
+
+/// A packet produced by the library's own encoders (None if the drawn call was refused / panicked).
+pub fn lib_encoded(rng: &mut Rng) -> Option<Vec<u8>> {
+    let form = *rng.pick(&ALL_FORMS);
+    let c = Call::random(form, rng, true, 249);
+    encode_ok(&c)
+}
+
+/// Any well-formed packet.
+pub fn gen_valid(rng: &mut Rng) -> Vec<u8> {
+    match rng.below(10) {
+        0..=2 => lib_encoded(rng).unwrap_or_else(|| forged_ctrl(rng)),
+        3..=7 => forged_ctrl(rng),
+        _ => forged_vendor(rng),
+    }
+}
+
+/// Flip a burst: `pattern` is 8 bits wide with its leading (0x80) bit set; applied MSB-first at
+/// bit offset `off` (bits beyond the end are dropped). Returns false if nothing was flipped.
+pub fn apply_burst(p: &mut [u8], off: usize, pattern: u8) -> bool {
+    let nbits = p.len() * 8;
+    let mut changed = false;
+    for k in 0..8 {
+        if pattern & (0x80 >> k) != 0 {
+            let bit = off + k;
+            if bit < nbits {
+                p[bit / 8] ^= 0x80 >> (bit % 8);
+                changed = true;
+            }
+        }
+    }
+    changed
+}
+
+#[derive(Clone, Copy, Debug, PartialEq, Eq)]
+pub enum Mutation {
+    None,
+    Truncate,
+    FieldFixPec,
+    FieldNoFix,
+    WrongPec,
+    Burst,
+    MultiDamage,
+    PadZeros,
+    Extend,
+}
+
+/// Apply one random mutation in place; returns which.
+pub fn mutate(rng: &mut Rng, p: &mut Vec<u8>) -> Mutation {
+    if p.is_empty() {
+        return Mutation::None;
+    }
+    match rng.below(16) {
+        0 | 1 => {
+            let k = rng.below(p.len() as u64) as usize;
+            p.truncate(k);
+            if rng.chance(1, 2) && !p.is_empty() {
+                fix_pec(p);
+            }
+            Mutation::Truncate
+        }
+        2..=5 => {
+            let lim = p.len().min(13);
+            let i = rng.below(lim as u64) as usize;
+            p[i] = rng.edgy_byte();
+            fix_pec(p);
+            Mutation::FieldFixPec
+        }
+        6 | 7 => {
+            let i = rng.below(p.len() as u64) as usize;
+            let old = p[i];
+            while p[i] == old {
+                p[i] = rng.byte();
+            }
+            Mutation::FieldNoFix
+        }
+        8 | 9 => {
+            let n = p.len();
+            let d = 1 + rng.below(255) as u8;
+            p[n - 1] ^= d;
+            Mutation::WrongPec
+        }
+        10 | 11 => {
+            let off = rng.below(p.len() as u64 * 8) as usize;
+            let pat = 0x80 | (rng.byte() & 0x7F);
+            apply_burst(p, off, pat);
+            Mutation::Burst
+        }
+        12 => {
+            let k = 2 + rng.below(4);
+            for _ in 0..k {
+                let i = rng.below(p.len() as u64) as usize;
+                p[i] ^= 1 + rng.below(255) as u8;
+            }
+            Mutation::MultiDamage
+        }
+        13 => {
+            let k = 1 + rng.below(20) as usize;
+            p.extend(std::iter::repeat(0u8).take(k));
+            Mutation::PadZeros
+        }
+        14 => {
+            // longer message with recomputed count/PEC (keeps headers, changes data length)
+            let k = 1 + rng.below(6) as usize;
+            let n = p.len();
+            let tail = rng.bytes(k);
+            p.truncate(n - 1);
+            p.extend_from_slice(&tail);
+            p.push(0);
+            fix_count_and_pec(p);
+            Mutation::Extend
+        }
+        _ => Mutation::None,
+    }
+}
+
+/// Uniformly random bytes of length n, optionally with fixed-up header bytes and PEC so that
+/// random data gets past the cheap checks.
+pub fn random_string(rng: &mut Rng, n: usize) -> Vec<u8> {
+    let mut p = rng.bytes(n);
+    let fix = rng.below(4);
+    if fix >= 1 {
+        if n > 1 {
+            p[1] = SMBUS_CMD;
+        }
+        if n > 4 {
+            p[4] = HDR_BYTE;
+        }
+        if n > 8 {
+            p[8] = *rng.pick(&SUPPORTED_TYPES);
+        }
+    }
+    if fix >= 2 {
+        if n > 10 && p[8] == TY_CONTROL {
+            p[10] = random_cmd(rng);
+            if n > 11 && p[9] & 0x80 == 0 && rng.chance(1, 2) {
+                p[11] = 0;
+            }
+        }
+        if n > 2 {
+            p[2] = n.wrapping_sub(4) as u8;
+        }
+        if rng.chance(3, 4) {
+            fix_pec(&mut p);
+        }
+    }
+    p
+}
+
+/// The general receive-path mixture.
+pub fn gen_any(rng: &mut Rng) -> Vec<u8> {
+    match rng.below(10) {
+        0..=2 => gen_valid(rng),
+        3..=7 => {
+            let mut p = gen_valid(rng);
+            let k = 1 + rng.below(2);
+            for _ in 0..k {
+                mutate(rng, &mut p);
+            }
+            p
+        }
+        _ => {
+            let n = match rng.below(10) {
+                0 => rng.below(14) as usize,
+                1 => rng.range(250, 263) as usize,
+                2 => rng.range(500, 600) as usize,
+                _ => rng.below(260) as usize,
+            };
+            random_string(rng, n)
+        }
+    }
+}
+
+/// A forged control request the responder can answer (the 7 answerable command forms), with the
+/// vendor selector below `nsets`. Returns (packet, command).
+pub fn answerable_request(rng: &mut Rng, dst7: u8, src7: u8, iid: u8, nsets: usize) -> Vec<u8> {
+    match rng.below(8) {
+        0 | 1 => {
+            let op = *rng.pick(&[0u8, 0, 1, 1, 3]);
+            ctrl_request(dst7, src7, iid, false, 0x01, &[op, rng.range(1, 0xFE) as u8])
+        }
+        2 => ctrl_request(dst7, src7, iid, false, 0x02, &[]),
+        3 => ctrl_request(dst7, src7, iid, false, 0x03, &[]),
+        4 => ctrl_request(dst7, src7, iid, false, 0x04, &[rng.edgy_byte()]),
+        5 => ctrl_request(dst7, src7, iid, false, 0x05, &[]),
+        _ => ctrl_request(dst7, src7, iid, false, 0x06, &[rng.below(nsets.max(1) as u64) as u8]),
+    }
+}
+
+pub fn pec_ok(p: &[u8]) -> bool {
+    !p.is_empty() && crc8(&p[..p.len() - 1]) == p[p.len() - 1]
+}
